@@ -41,7 +41,7 @@ def run(chk):
     quick = chk.tier == "quick"
     rnd = random.Random(chk.seed + 18)
     res = lib.tlc("RelDesign", "MC_RelDesign.cfg", env={"MAXN": 4 if quick else 5, "MAXB": 2, "MAXP": 5 if quick else 6},
-                  workers=4, timeout=900 if quick else 3000, coverage=False)
+                  workers=bc.workers(4), timeout=900 if quick else 3000, coverage=False)
     chk.add_tlc(res, "design")
     if not res.ok:
         chk.violation({"level": "design", "invariant": res.violated}, {"tlc": res.trace[-4000:]})
@@ -53,15 +53,18 @@ def run(chk):
         jobs.append(j)
 
     # ---- all tables of 1..4 rows x 1..3 key bits, payload = distinct row tags
-    for n in range(1, 5):
-        for b in range(1, 4):
+    shapes = [(n, b) for n in range(1, 5) for b in range(1, 4)]
+    if not quick:
+        shapes += [(5, 1), (5, 2), (3, 4), (2, 4), (2, 5), (1, 4), (1, 7), (6, 1), (3, 5)]
+    for n, b in shapes:
+        if True:
             grp = "sort-%d-%d" % (n, b)
             claims.append({"grp": grp, "what": "sort", "n": n, "b": b, "count": 0})
             for t in range(1 << (n * b)):
                 key = [(t >> i) & 1 for i in range(n * b)]
                 add({"kind": "sort", "grp": grp, "cols": [col("key", "b", [n, b], key), col("pay", "u8", [n], [10 + i for i in range(n)])]})
     # ---- sampled tables up to 12 rows x 10 bits, duplicates forced by a small key pool, several payload columns
-    nsamp = 250 if quick else 3000
+    nsamp = 400 if quick else 20000
     pay_types = ["b", "u8", "i64", "u16", "i32", "u64"]
     for s in range(nsamp):
         n = rnd.randint(1, 12)
@@ -94,6 +97,11 @@ def run(chk):
             add({"kind": "isort", "grp": "isort-i8-%d" % n, "cols": [col("key", "i8", [n], [v & 255 for v in t]), col("pay", "u8", [n], list(range(n)))]})
         if n < 4:
             claims.append({"grp": "isort-i8-%d" % n, "what": "count", "n": n, "b": 8, "count": 9 ** n})
+    if not quick:   # every pair of i8 keys
+        claims.append({"grp": "isort-i8-allpairs", "what": "count", "n": 2, "b": 8, "count": 65536})
+        for k0 in range(256):
+            for k1 in range(256):
+                add({"kind": "isort", "grp": "isort-i8-allpairs", "cols": [col("key", "i8", [2], [k0, k1]), col("pay", "u8", [2], [0, 1])]})
     for st in ["b", "u8", "i8", "u16", "i16", "u32", "i32", "u64", "i64", "u128", "i128"]:
         w = BITS[st]
         m = (1 << w) - 1
@@ -130,7 +138,7 @@ def run(chk):
         ninv += 1
     add({"kind": "claims", "grp": "claims", "claims": claims})
 
-    recs, bad = bc.run_rel(chk, jobs, "sort", workers=4 if quick else 8, timeout=1500 if quick else 6000)
+    recs, bad = bc.run_rel(chk, jobs, "sort", workers=bc.workers(4 if quick else 8), timeout=1500 if quick else 6000)
     for rec, v in bad:
         job = jobs[rec["id"]]
         sig = {"kind": rec["kind"], "why": v["why"]}
@@ -148,7 +156,7 @@ def run(chk):
                 sig = {"kind": "perm", "payload": "u128"}
             else:
                 sig["valid"] = sorted(job["p"]) == list(range(len(job["p"])))
-        chk.violation(sig, {"verdict": v, "job": job, "returned": {k: rec.get(k) for k in ("res", "ap", "inv", "back", "back2", "iap")}})
+        chk.violation(sig, {"cmd": "rel", "jobs_file": chk.path("jobs_sort.ndjson"), "job_id": rec["id"], "verdict": v, "job": job, "returned": {k: rec.get(k) for k in ("res", "ap", "inv", "back", "back2", "iap")}})
     kinds = {}
     for r in recs:
         if r["kind"] != "claims":
@@ -166,8 +174,15 @@ def run(chk):
                         "key_out": ["".join(map(str, k)) for k in r["res"]["cols"]["key"]["rows"]]}, cap=3)
         if r["kind"] == "perm" and r["grp"] == "perm-4" and r["ap"]["out"] == "ok":
             chk.sample({"kind": "perm", "p": r["p"], "a": r["a"], "applied": r["ap"]["rows"], "inverse": [x[0] for x in r["inv"]["rows"]]}, cap=5)
+    if not chk.samples:
+        r = recs[0]
+        chk.sample({"kind": r["kind"], "in": r["in"]["cols"]["key"]["rows"], "out": r["res"]["cols"]["key"]["rows"]})
     chk.assumptions += [
         "bit-string keys: element 0 of a key row is the most significant (rows are ordered lexicographically)",
         "ApplyPermutation(a, p)[i] = a[p[i]] (the convention of the evaluator); the property itself only needs the round trip",
         "the compiled (secure) sort is judged by the C01/C02 machinery, not here",
     ]
+
+
+def replay(path):
+    return bc.replay(path)
